@@ -31,5 +31,7 @@ revert_restore_expirations C11
 revert_zero_jittered_ttl C10
 log_guard_wrong_level C04
 c16_key_copy_after_go C16
+c04_global_lock_during_sync_build C04
+c07_walk_holds_lock_during_callback C07
 c07_nil_value_is_miss C07
 LIST
